@@ -64,6 +64,8 @@ def make_cases(tier, rng):
             elif nt:
                 seq.append("(run %d)" % rng.below(nt))
         add("local" if rng.chance(1, 2) else "threads", seq, "multi-task")
+    # a body running on a pool thread while its handle is unsubscribed (real threads: C10_cancel_waits_for_running_poll)
+    cases.append(("race1", "(case race1 sched_race %d)" % (10 if tier == "quick" else 60), {"class": "thread-pool", "len": 0}))
     return cases
 
 
